@@ -674,3 +674,20 @@ def _(e, c, a):
     r = un(a[0]); x = un(a[1])
     hi = e.binop('Le' if r.name == 'RangeInclusive' else 'Lt', x, r.f[1].v, 'usize')
     return zand([e.binop('Ge', x, r.f[0].v, 'usize'), hi])
+
+
+# ---------------------------------------------------------------- itertools::Itertools::tuples (groups of the tuple's arity; an incomplete tail is dropped)
+@model(r' as (itertools::)?Itertools>::tuples$')
+def _(e, c, a):
+    from ..mir import scan_split
+    m = re.search(r'tuples::<\((.*)\)>\s*$', c.strip(), flags=re.S)
+    n = len([x for x in scan_split(m.group(1)) if x.strip()]) if m else 2
+    it = it_of(a[0])
+    def g():
+        while True:
+            grp = []
+            for _ in range(n):
+                try: grp.append(it.next())
+                except StopIteration: return
+            yield Struct('()', grp)
+    return PyIter(g())
